@@ -1,12 +1,13 @@
 //! Sierra AP change model.
 use ap_change_info::ApChangeInfo;
 use cairo_lang_sierra::extensions::gas::CostTokenType;
-use cairo_lang_sierra::ids::{ConcreteTypeId, FunctionId};
+use cairo_lang_sierra::ids::{ConcreteLibfuncId, ConcreteTypeId, FunctionId};
 use cairo_lang_sierra::program::{Program, StatementIdx};
 use cairo_lang_sierra::program_registry::ProgramRegistryError;
 use cairo_lang_sierra_type_size::{ProgramRegistryInfo, TypeSizeMap};
 use cairo_lang_utils::casts::IntoOrPanic;
 use cairo_lang_utils::ordered_hash_map::OrderedHashMap;
+use cairo_lang_utils::ordered_hash_set::OrderedHashSet;
 use core_libfunc_ap_change::InvocationApChangeInfoProvider;
 use generate_equations::{Effects, Var};
 use itertools::Itertools;
@@ -83,7 +84,7 @@ pub fn calc_ap_changes<TokenUsages: Fn(StatementIdx, CostTokenType) -> usize>(
     program_info: &ProgramRegistryInfo,
     token_usages: TokenUsages,
 ) -> Result<ApChangeInfo, ApChangeError> {
-    let equations = generate_equations::generate_equations(program, |idx, libfunc_id| {
+    let get_effects = |idx: StatementIdx, libfunc_id: &ConcreteLibfuncId| {
         let libfunc = program_info.registry.get_libfunc(libfunc_id)?;
         core_libfunc_ap_change::core_libfunc_ap_change(
             libfunc,
@@ -102,7 +103,19 @@ pub fn calc_ap_changes<TokenUsages: Fn(StatementIdx, CostTokenType) -> usize>(
             })
         })
         .collect::<Result<Vec<_>, _>>()
-    })?;
+    };
+    // A function with a return statement reached with an unknown ap change has an unknown ap
+    // change, and so does every call to it - iterating until no more such functions are found.
+    let mut unknown_ap_change_funcs = OrderedHashSet::default();
+    let equations = loop {
+        let (equations, found) =
+            generate_equations::generate_equations(program, &unknown_ap_change_funcs, get_effects)?;
+        let prev_len = unknown_ap_change_funcs.len();
+        unknown_ap_change_funcs.extend(found);
+        if unknown_ap_change_funcs.len() == prev_len {
+            break equations;
+        }
+    };
     let minimization_vars =
         equations.iter().flat_map(|eq| eq.var_to_coef.keys()).unique().cloned().collect();
     let solution = cairo_lang_eq_solver::try_solve_equations(equations, vec![minimization_vars])
